@@ -36,11 +36,12 @@ def layoutFields (m : Module) (bs : List GroupBinding) : G (List (String × ResK
 
 /-- `storage_access` -/
 def storageAccess (a : Access) : G StAccess :=
-  match a.load, a.store with
-  | true, true => .ok .readWrite
-  | true, false => .ok .readOnly
-  | false, true => .ok .writeOnly
-  | false, false => todo "storage-access"
+  if a.atomic then .ok .atomic
+  else match a.load, a.store with
+    | true, true => .ok .readWrite
+    | true, false => .ok .readOnly
+    | false, true => .ok .writeOnly
+    | false, false => todo "storage-access"
 
 def viewDim (dim : ImageDim) (arrayed : Bool) : G ViewDim :=
   match dim, arrayed with
@@ -64,7 +65,7 @@ def bindingType (ty : Ty) (space : Space) : G BindingTy :=
       match k with
       | .sint => pure (.texture .sint vd multi)
       | .uint => pure (.texture .uint vd multi)
-      | .float => pure (.texture (.float true) vd multi)
+      | .float => pure (.texture (.float true) vd multi)   -- "TODO: Don't assume all textures are filterable."
       | _ => todo "sample-kind"
     | .depth multi => pure (.texture .depth vd multi)
     | .storage fmt access => do
